@@ -41,6 +41,12 @@ CHECKS = {
  "C20": dict(level="exploration", engine="E-LEASE", technique="runtime monitoring: request-level schedule enumeration over real s3.Leaser instances with an online belief-set invariant, plus porcupine linearizability checking of free-running histories under the race detector",
    text="Real Leaser instances over one in-memory conditional-write store; every request blocks until the scheduler grants it. All interleavings of 2 instances x programs of <=3 operations x TTL classes are visited (exhaustive), plus random 3-client schedules and free-running histories checked with porcupine; after every request at most one live-believed holder may exist, taken-over instances must get ErrLeaseNotHeld, generations must increase.",
    note="S3 conditional-write semantics are modelled by the in-memory store (If-Match / If-None-Match, 412/404); lease liveness is a class (+1h/-1h), never a clock reading", ref="§4 C20"),
+ "C12": dict(level="exploration", engine="E-CONC", technique="runtime monitoring: Go race detector + progress-confirmed watchdog + lock/fd probes + porcupine registry model + C01/C02/snapshot oracles over concurrent stress runs of one Store with live writers",
+   text="N goroutines draw from the daemon's whole operation set (incl. the control socket) against one Store with live application writers, monitors at millisecond intervals and delays injected inside storage calls; zero race reports with a litestream frame, no stuck operation, no leaked read lock or descriptor after Close/Unregister, exactly one instance per path (porcupine), and afterwards the final acknowledgement restores to the source, every TXID is a consistent committed state and every level-9 file equals the level-0 image of its TXID.",
+   note="real goroutine schedules, not enumerated; runs are sized by completed calls with a wall-clock cap; restores per run are capped and the cap is stated in the evidence", ref="§4 C12"),
+ "C16": dict(level="fault_enumeration", engine="E-CRASH", technique="runtime monitoring under process kills: ptrace supervisor kills the follower before each fs-mutating syscall; byte comparison with an ordinary restore at quiescence; sidecar monotonicity",
+   text="A follower process (Restore with Follow) is driven poll by poll against staged primary histories with compaction, snapshots and retention; it is killed before every file-system-mutating syscall of its apply/sidecar cycles (and in the window between publishing the database and its first sidecar), restarted, and must converge byte-for-byte (masked header bytes) to Restore(TXID=replica max) without its sidecar ever regressing; graceful stop/restart histories run alongside.",
+   note="SIGKILL of the process (page cache survives); poll cycles are counted logically through a counting ReplicaClient proxy in the victim; wall-clock limits only produce inconclusive", ref="§4 C16"),
 }
 
 # properties not (yet) claimed: id -> reason
